@@ -33,7 +33,18 @@ CLAIMS["C01"] = dict(
     note=TB + " Not by theorem yet: chain, wait_until, FutureGroup, StreamGroup, one level of nesting.",
     design_ref="DESIGN.md §7 C01, Appendix A")
 
+CLAIMS["C20"] = dict(
+    text="Theorem C20_concurrent_fixed (FcProps/C20.lean): for join, try_join (both models), race, race_ok (three "
+         "variants), merge and zip, every n, all scripts (incl. children that never complete) and histories, both waker "
+         "strategies: at every poll that returns Pending (a) every child has been polled at least once and (b) every child "
+         "that was waiting and whose waker had fired when the poll began was polled during this poll. Proved by one "
+         "induction together with C01 (invariants: never-polled child => eligible and armed; woken waiting child stays "
+         "armed until the scan reaches it; a Pending outcome only arises from an empty readiness set or a complete scan). "
+         "FutureGroup/StreamGroup: monitor on real traces + trace equality with the group model, no theorem yet.",
+    note=TB + " Groups: correspondence + monitor on real traces only.",
+    design_ref="DESIGN.md §7 C20")
+
 PENDING = "theorem not yet proved in this revision; the property is exercised by the shared correspondence runs but not claimed"
 NOT_APPLICABLE = {p: PENDING for p in
                   ["C02", "C03", "C04", "C05", "C06", "C07", "C08", "C09", "C10", "C11", "C12", "C13", "C14",
-                   "C15", "C17", "C18", "C19", "C20"]}
+                   "C15", "C17", "C18", "C19"]}
